@@ -193,7 +193,8 @@ def jobs_C02(tier, seed, want='C02', dsts=('path', 'seekable', 'nonseekable', 's
         for conc, win in ((2, 1), (2, 2), (3, 2)):
             s = scn([T_dl(dst, 'o5')], cfg(max_request_concurrency=conc, max_in_memory_download_chunks=win,
                                           max_io_queue_size=2), seed=seed)
-            jobs.append(job(f'sched dl {dst} conc={conc} win={win}', s, BD(tier)['PLAIN2' if conc == 2 else 'PLAIN'], want, max_execs=400000))
+            jobs.append(job(f'sched dl {dst} conc={conc} win={win}', s,
+                            BD(tier)['PLAIN2' if conc == 2 and (tier == 'quick' or dst == 'nonseekable') else 'PLAIN'], want, max_execs=600000))
         s = scn([T_dl(dst, 'o5')], cfg(max_request_concurrency=2, max_in_memory_download_chunks=2), seed=seed,
                 faults={'sites': ['stream:retryable']})
         jobs.append(job(f'sched+fault dl {dst}', s, BD(tier)['FAULT'], want, max_execs=400000))
@@ -204,8 +205,10 @@ def jobs_C02(tier, seed, want='C02', dsts=('path', 'seekable', 'nonseekable', 's
             s = scn([T_dl(dst, key)], cfg(multipart_chunksize=c_, io_chunksize=io, max_request_concurrency=2,
                                           max_in_memory_download_chunks=2, num_download_attempts=2 if tier == 'quick' else 3),
                     seed=seed, faults={'sites': ['stream:retryable', 'stream:short'], 'short_sizes': [1]})
+            deep = tier != 'quick' and dst == 'nonseekable' and key == 'o6'
             jobs.append(job(f'sched+fault+short dl {dst} {key} c={c_} io={io}', s,
-                            {'sched': 1, 'env': 2} if tier == 'quick' else {'sched': 2, 'env': 2}, want, max_execs=600000))
+                            {'sched': 2, 'env': 2} if deep else {'sched': 1, 'env': 2 if tier == 'quick' or dst != 'nonseekable' else 3},
+                            want, max_execs=600000))
     return jobs
 
 
